@@ -304,19 +304,13 @@ func (m *MemMapFs) Remove(name string) error {
 func (m *MemMapFs) RemoveAll(path string) error {
 	path = normalizePath(path)
 	m.mu.Lock()
-	m.unRegisterWithParent(path)
-	m.mu.Unlock()
+	defer m.mu.Unlock()
 
-	m.mu.RLock()
-	defer m.mu.RUnlock()
+	m.unRegisterWithParent(path)
 
 	for p := range m.getData() {
 		if p == path || strings.HasPrefix(p, path+FilePathSeparator) {
-			m.mu.RUnlock()
-			m.mu.Lock()
 			delete(m.getData(), p)
-			m.mu.Unlock()
-			m.mu.RLock()
 		}
 	}
 	return nil
